@@ -109,7 +109,8 @@ def _run_case(arg):
                 try:
                     params, st0 = res.inputs
                     d["model"] = {k: solve.model_value(ob.model, v) for k, v in ob.symbols.items() if not str(v.sort()).startswith("Array")}
-                    d["params"] = {k: materialize(E, res.builder, st0, v, ob.model) for k, v in params.items()}
+                    seen = {}
+                    d["params"] = {k: materialize(E, res.builder, st0, v, ob.model, seen) for k, v in params.items()}
                 except Exception as e:  # noqa: BLE001
                     d["materialize_error"] = f"{type(e).__name__}: {e}"
             if ob.verdict == "proved" and len(out["obligations"]) < 2:
